@@ -129,6 +129,12 @@ func c18Addr(c *harness.Check, cs addrCase) string {
 			if strings.HasPrefix(content, "@use(\"zbase\")") {
 				content = "<html>home</html>" // the one page of these trees that uses a layout
 			}
+			if strings.HasPrefix(content, "@use(\"zshell\")") {
+				content = "<shell>static</shell>"
+			}
+			if strings.HasPrefix(content, "@use(\"sub/abase\")") {
+				content = "<base>static</base>"
+			}
 			if strings.HasPrefix(content, "@component(\"sub/zcomp\")") {
 				content = "<zc>;<zc>;<zc>;<zc>;<zc>;" // ... and the one that uses a component
 			}
@@ -263,6 +269,14 @@ func TestC18_Addressing(t *testing.T) {
 			// a valid tree loads whatever the spelling of the relative paths inside it
 			tr[realDir+"/sub/zcomp"+ext] = tree.Entry{Content: "<zc>"}
 			tr[realDir+"/zuser"+ext] = tree.Entry{Content: "@component(\"sub/zcomp\");@component(\"/sub/zcomp\");@component(\"./sub/zcomp\");@component(\"sub//zcomp\");@component(\"sub/../sub/zcomp\");"}
+		}
+		if rapid.IntRange(0, 2).Draw(rt, "plainFileAsLayout") == 0 {
+			// a file without reserves stays a page of its own, also when another page names it in @use
+			// (whichever of the two sorts first)
+			tr[realDir+"/ahome"+ext] = tree.Entry{Content: "@use(\"zshell\")ignored"}
+			tr[realDir+"/zshell"+ext] = tree.Entry{Content: "<shell>static</shell>"}
+			tr[realDir+"/sub/zpage"+ext] = tree.Entry{Content: "@use(\"sub/abase\")ignored"}
+			tr[realDir+"/sub/abase"+ext] = tree.Entry{Content: "<base>static</base>"}
 		}
 		if rapid.Bool().Draw(rt, "doubleExt") {
 			tr[realDir+"/dbl"+ext+ext] = tree.Entry{Content: "FILE:dbl" + ext}
